@@ -829,6 +829,9 @@ def hex_structure_rule(ck, fb, rule="C16.structure"):
             continue
         L = re.sub(r"^(std::)?move\((.*)\)$", r"\2", cn.s(x["a"][0]))
         hit = [s_ for s_, p_ in fs_ if p_ is True and re.fullmatch(r"(\w+::)*(\w+)\(%s\)" % re.escape(L), s_) and not s_.startswith("check_halfface_ordering")]
+        if not hit and any(re.match(r"std::(set|unordered_set|vector|array)<OpenVolumeMesh::VH", v_.get("t", "")) for vid_, (v_, b_, i_) in cn.decl.items()):
+            ck.cannot_judge("%s %s: add_cell compares vertices itself instead of calling a predicate on the list - the inlined structure test is not judged" % (rule, f.loc(x)))
+            continue
         (ck.ok if hit else lambda r_, w_, t_: ck.violate(r_, w_, t_, "%s:unchecked" % rule))(rule, f.loc(x), "add_cell: with the check requested the list %s reaches the base class only after a structure predicate on it held (%s)" % (L, hit[:1] or "none besides the ordering test"))
         for h in hit:
             preds.add(re.fullmatch(r"(\w+::)*(\w+)\(.*\)", h).group(2))
